@@ -169,7 +169,12 @@ func cmdCheck(args []string) int {
 	knownRegions = regionFor
 	for _, u := range units {
 		if u.kind == "func" {
-			u.rep = VerifyFunc(p, u.fc, VerifyOpts{})
+			opts := VerifyOpts{}
+			if id == "C10" || id == "C20" {
+				opts.PanicMode = true
+				opts.PanicProps = []string{"C10", "C20"}
+			}
+			u.rep = VerifyFunc(p, u.fc, opts)
 		} else {
 			u.rep = VerifyLemma(p, u.lm)
 		}
@@ -352,6 +357,16 @@ func cmdCheck(args []string) int {
 		"samples":                samples,
 		"undischarged":           len(viols),
 		"timeout_s":              timeout,
+	}
+	if id == "C20" || id == "C10" {
+		// entry points carrying the pending marker (<id>x) are not claimed: list them, never count them
+		var unclaimed []string
+		for _, k := range keys {
+			if hasProp(p.Specs.Contracts[k].Props, id+"x") {
+				unclaimed = append(unclaimed, k)
+			}
+		}
+		cov["unclaimed_functions"] = unclaimed
 	}
 	ev := map[string]interface{}{
 		"property_id": id, "tier": tier, "seed": seed, "level": "proof", "coverage": cov,
